@@ -103,6 +103,14 @@ def enum_histories(spec):
                 yield {'cfg': cfg, 'ops': pre + [op] + reads[2:3]}
         for op in ([['popitem']] if is_map else [['pop']]) + [['clear']]:
             yield {'cfg': cfg, 'ops': pre + [op, op] + reads}
+        # writes with a key / value the family cannot represent, through every writing entry point, on every state
+        # (the empty one included: the provisional first leaf must be rolled back)
+        hows = (['set', 'setdefault', 'update'] + (['insert'] if kind == 'BTree' else [])) if is_map else \
+            (['add', 'update'] + (['insert'] if kind == 'TreeSet' else []))
+        for role in (('key', 'value') if is_map else ('key',)):
+            for how in hows:
+                for zi in range(9):
+                    yield {'cfg': cfg, 'ops': pre + [['bad', role, how, zi, stranger, vt[1] if is_map else None]] + reads}
     subsets3 = [[U[i] for i in range(3) if msk >> i & 1] for msk in range(8)]
     if is_map:
         pairs = [[k, v] for k in U[:3] for v in vt]
